@@ -582,6 +582,9 @@ func Gen(prop, tier string, seed, run uint64) Plan {
 				o = Op{C: CMut, K: "DelWebhook", Addr: fmt.Sprintf("http://127.0.0.1:1/hook%d", r.IntN(3))}
 			case 3:
 				o = Op{C: CMut, K: "AddEndpoint", Addr: fmt.Sprintf("127.0.0.1:%d", 1+r.IntN(3))}
+				if r.IntN(3) == 0 {
+					o.Addr = []string{"localhost:1", "localhost:2", ":7"}[r.IntN(3)]
+				}
 			case 4:
 				o = Op{C: CMut, K: "DelEndpoint", Addr: fmt.Sprintf("127.0.0.1:%d", 1+r.IntN(3))}
 			}
